@@ -139,7 +139,8 @@ namespace bxdecay0 {
     if (! std::isnan(_config_.activity_Bq)) {
       activity_Bq = _config_.activity_Bq;
     }
-    std::exponential_distribution<> decay_timer(activity_Bq);
+    // The rate must be positive even when no activity is requested (the timer is not used then):
+    std::exponential_distribution<> decay_timer(std::isnan(activity_Bq) ? 1.0 : activity_Bq);
 
     // Store config/information in the file header:
     std::time_t now_time = std::time(0);
